@@ -99,11 +99,11 @@ Example C09_self_definition_is_usage_error :
   step_op selfdef_request s = Usage 211.
 Proof. vm_compute. repeat split; reflexivity. Qed.
 
-(* The clause "a step does not declare its own (indirect) creator again" of request_ok is needed:
-   K is detached together with its product C while both are RUNNING (their creator failed); C
-   declares K again with the identical specification.  The full recycle (Node.reattach) would make
-   the creator links cyclic, and Step._flag_checks_with_products (WITH RECURSIVE ... UNION ALL)
-   never terminates: the director hangs inside the transaction (finding C09-creatorcycle). *)
+(* Regression witness of finding D31 (fixed in the repo by d88bd6a): K is detached together with
+   its product C while both are RUNNING (their creator failed); C declares K again with the
+   identical specification.  The full recycle (Node.reattach) would make the creator links cyclic,
+   on which Step._flag_checks_with_products (WITH RECURSIVE ... UNION ALL) never terminates; the
+   request is now rejected as a usage error (Usage 212 in the model). *)
 Definition cycle_prefix : list op :=
   [OpDeclareStatic root_key [[112]];
    OpUpdateHashes CConfirmed [([112], Some 1)];
@@ -118,16 +118,23 @@ Definition cycle_prefix : list op :=
    OpResetForRerun [67];
    OpExecEnd plan_label [] CFailed [] false false].
 Definition cycle_request : op := OpDefineStep (KStep, [67]) [75] [] [] [] [] NDefault.
-Theorem C09_define_own_creator_refuted :
-  exists cap ops o, let s := run_ops ops (init_st cap) in
-    protocol_run_b (init_st cap) ops = true /\ inv_b s = true /\ request_ok_weak s o = true /\
-    step_op o s = Internal 126.
-Proof. exists 3, cycle_prefix, cycle_request. vm_compute. repeat split; reflexivity. Qed.
+Example C09_define_own_creator_is_usage_error :
+  let s := run_ops cycle_prefix (init_st 3) in
+  protocol_run_b (init_st 3) cycle_prefix = true /\ inv_b s = true /\ request_ok s cycle_request = true /\
+  step_op cycle_request s = Usage 212.
+Proof. vm_compute. repeat split; reflexivity. Qed.
+(* Node.reattach itself still has no such guard: reattaching K under its product C is the
+   non-terminating case (Internal 126 in the model); define_step no longer gets there. *)
+Example C09_reattach_under_own_product_does_not_terminate :
+  node_reattach (KStep, [75]) (KStep, [67]) (run_ops cycle_prefix (init_st 3)) = Internal 126.
+Proof. vm_compute. reflexivity. Qed.
 
 (* Hash results are applied whenever the hashing thread completes (Executor._run_hash_job), not
    necessarily in the state in which the job was queued (finding D17): the path [102;53] ("f5") is
    UNCONFIRMED when the job is queued; when the result arrives the node has been detached by the
-   rerun of its creator and taken over as a volatile output.  _HASH_TRANSITIONS has no row. *)
+   rerun of its creator and taken over as a volatile output.  _HASH_TRANSITIONS has no row.
+   Fixed in the repo by a139b14 (Executor._run_hash_job drops such a result); the statement below is
+   about Workflow.update_file_hashes, which still rejects it. *)
 Definition stale_prefix1 : list op :=
   [OpDeclareStatic root_key [[112]];
    OpUpdateHashes CConfirmed [([112], Some 1)];
